@@ -94,6 +94,12 @@ def check_inorder_accumulation(ctx, f: FuncInfo, acc: str, source: str, rule="OR
       updates.append(n)
   key = f"{f.qualname}|`{acc}` accumulated in the order of `{source}`"
   problems = []
+  # comprehension form: acc = [x for s in <source> for x in <items of s>] keeps the order of source
+  comp = [u for u in updates if isinstance(u, ast.Assign) and isinstance(u.value, ast.ListComp) and u.value.generators
+          and unparse(u.value.generators[0].iter) in (source, f"list({source})", f"iter({source})", f"tuple({source})")]
+  if len(comp) == 1 and len(updates) == 1:
+    ctx.ok(rule, key, ctx.where(f.module, comp[0]), "built by one comprehension whose outer loop iterates the source in order")
+    return
   loops = [lp for lp in loops if any(any(x is u for x in own_nodes(lp)) for u in updates)]
   if len(loops) != 1:
     problems.append(f"{len(loops)} loops over `{source}` update the accumulator (expected one in-order pass)")
@@ -303,24 +309,39 @@ def check_region_key(ctx, f: FuncInfo, rule="TAB-region-key"):
   ix = ctx.ix
   ctx.unit(f.module)
   ce = ConstEval(ix, symbolic_ok=True)
+  # the function together with the private helpers of its module that it calls (an extracted lookup / constructor)
+  group = [f]
+  for g in group:
+    for c in own_nodes(g.node):
+      if isinstance(c, ast.Call):
+        r = ix.resolve(g.module, c.func, cls=g.cls, func=g)
+        if isinstance(r, FuncInfo) and r.module is f.module and r.name.startswith("_") and r not in group and len(group) < 6:
+          group.append(r)
   compared = set()
-  for n in own_nodes(f.node):
-    if isinstance(n, ast.For):
-      for c in own_nodes(n):
-        if isinstance(c, ast.Call) and isinstance(c.func, ast.Attribute) and c.func.attr == "get_style" and c.args and unparse(c.func.value) == unparse(n.target):
-          compared.add(unparse(c.args[0]).split(".")[-1])
   setvar = {}
-  for c in own_nodes(f.node):
-    if isinstance(c, ast.Call) and isinstance(c.func, ast.Attribute) and c.func.attr == "set_style" and len(c.args) == 2:
-      p = unparse(c.args[0]).split(".")[-1]
-      v = c.args[1]
-      const = False
-      if isinstance(v, ast.Constant):
-        const = True
-      elif isinstance(v, ast.Name):
-        r = ix.resolve(f.module, v, func=f)
-        const = isinstance(r, tuple) and r[0] == "assign" and v.id not in _locals_of(f)
-      setvar[p] = not const
+  for g in group:
+    ctx.unit(g.module)
+    itervars = set()
+    for n in own_nodes(g.node):
+      if isinstance(n, ast.For):
+        itervars |= {x.id for x in ast.walk(n.target) if isinstance(x, ast.Name)}
+      if isinstance(n, (ast.GeneratorExp, ast.ListComp, ast.SetComp)):
+        for gen in n.generators:
+          itervars |= {x.id for x in ast.walk(gen.target) if isinstance(x, ast.Name)}
+    for c in own_nodes(g.node):
+      if isinstance(c, ast.Call) and isinstance(c.func, ast.Attribute) and c.func.attr == "get_style" and c.args and isinstance(c.func.value, ast.Name) and c.func.value.id in itervars:
+        compared.add(unparse(c.args[0]).split(".")[-1])
+    for c in own_nodes(g.node):
+      if isinstance(c, ast.Call) and isinstance(c.func, ast.Attribute) and c.func.attr == "set_style" and len(c.args) == 2:
+        p = unparse(c.args[0]).split(".")[-1]
+        v = c.args[1]
+        const = False
+        if isinstance(v, ast.Constant):
+          const = True
+        elif isinstance(v, ast.Name):
+          r = ix.resolve(g.module, v, func=g)
+          const = isinstance(r, tuple) and r[0] == "assign" and v.id not in _locals_of(g)
+        setvar[p] = setvar.get(p, False) or not const
   varying = {p for p, var in setvar.items() if var}
   if len(varying) < 3:
     raise AnalysisError(f"{f.qualname}: fewer than 3 varying styles set on a new region (anchor changed shape)")
